@@ -77,7 +77,9 @@ LeavesOf(fam) ==
                                 Obj(<<Prop("kind", LS("text"), FALSE), Prop("format", LS("html"), FALSE), Prop("b", TNumber, FALSE)>>, <<>>),
                                 Obj(<<Prop("kind", LS("img"), FALSE), Prop("c", TString, FALSE)>>, <<>>)>>),
                           \* named intersection members that declare the same property with types differing only in depth
-                          Inter(<<Ref("Ma"), Ref("Mb")>>), Inter(<<Ref("Mb"), Ref("Ma")>>)}
+                          Inter(<<Ref("Ma"), Ref("Mb")>>), Inter(<<Ref("Mb"), Ref("Ma")>>),
+                          \* (members are emitted in the order of their names: here the wider declaration comes first)
+                          Inter(<<Ref("Ka"), Ref("Kb")>>)}
     [] fam = "describe" -> {Obj(<<Prop("my-key", TString, FALSE), Prop("b", TNumber, TRUE)>>, <<>>),
                             Obj(<<Prop("a b", TString, TRUE)>>, <<>>),
                             Obj(<<Prop("0", TString, FALSE), Prop("$x", TNumber, FALSE)>>, <<>>),
@@ -136,7 +138,10 @@ PresetEnv ==
     [n |-> "Lb",   kind |-> "type", ty |-> Obj(<<Prop("kind", LS("labels"), FALSE)>>, <<Ix(TString, TString)>>)],
     [n |-> "Ma",   kind |-> "type", ty |-> Obj(<<Prop("id", TString, FALSE),
                                                  Prop("meta", Obj(<<Prop("kind", Uni(<<LS("p"), LS("q")>>), FALSE)>>, <<>>), FALSE)>>, <<>>)],
-    [n |-> "Mb",   kind |-> "type", ty |-> Obj(<<Prop("meta", Obj(<<Prop("kind", TString, FALSE)>>, <<>>), FALSE), Prop("z", TNumber, TRUE)>>, <<>>)] >>
+    [n |-> "Mb",   kind |-> "type", ty |-> Obj(<<Prop("meta", Obj(<<Prop("kind", TString, FALSE)>>, <<>>), FALSE), Prop("z", TNumber, TRUE)>>, <<>>)],
+    [n |-> "Ka",   kind |-> "type", ty |-> Obj(<<Prop("meta", Obj(<<Prop("kind", TString, FALSE)>>, <<>>), FALSE), Prop("w", TNumber, TRUE)>>, <<>>)],
+    [n |-> "Kb",   kind |-> "type", ty |-> Obj(<<Prop("id", TString, FALSE),
+                                                 Prop("meta", Obj(<<Prop("kind", Uni(<<LS("p"), LS("q")>>), FALSE)>>, <<>>), FALSE)>>, <<>>)] >>
   ELSE <<>>
 
 FreshName == IF env = <<>> THEN "A" ELSE IF Len(env) = 1 THEN "B" ELSE "C"
